@@ -100,3 +100,11 @@ package logging
 //@   noinline appendValue
 //@   at call CEFTextFormatter.appendValue : assert arg[0] == b && arg[1] == value
 //@   at call Buffer.WriteString : assert arg[0] == defaultMessageDivider
+
+// ---- JSON entries (C20): the bytes that are authenticated for a field value are its JSON encoding - typed and
+// self-delimiting (the string "3" and the number 3, or a string that contains the field delimiter, do not have the same
+// encoding as their look-alikes) - for every value, strings included; producer hook and verifier share this function.
+//@ func getBytes(key interface{}) (out []byte, err error)
+//@   props C20
+//@   at call json.Marshal : assert arg[0] == key
+//@   ensures always-the-json-encoding: called(json.Marshal) && sameslice(out, ret(json.Marshal)[0]) && err == ret(json.Marshal)[1]
